@@ -27,10 +27,14 @@ CHECKS = {
              "operation / mode / register / value written.  Register lists and pairs are enumerated completely.  Label operands via "
              "multi-statement templates with symbolic origin and distance.  Not `proof` only because some cells are refuted on the tree "
              "(genuine defects, replayed natively, listed in known_findings.json); every other obligation is discharged.", "DESIGN 4 C01, 12"),
-    "C02": C("other", "Size agreement (bytes emitted == bytes reserved) is an obligation of every assembler cell; the address chain, symbol values "
-             "and origin are proved on multi-statement templates whose origin and gap size are symbolic (all origins, all distances), "
-             "against image semantics computed from the emitted bytes.  ORG placement shapes enumerated.  Refuted cells are known findings.",
-             "DESIGN 4 C02, 12"),
+    "C02": C("other", "Unbounded function contracts over an ABSTRACT statement list of any length: the address pass of translate_statements "
+             "(loop invariant: address == A[i-1]+SIZE[i-1], stored addresses == the specification's recurrence incl. pre-set ORG addresses, "
+             "frame), Program.save_symbol for every table state (abstract dictionary) and the symbol-collection loop (invariant with an "
+             "owner ghost: a duplicate label is always rejected, a rejection always has a witness, every label owns its entry).  Size "
+             "agreement (bytes emitted == bytes reserved) is an obligation of every single-statement cell with symbolic digits; address "
+             "chain, symbol values and origin are additionally proved on multi-statement templates with symbolic origin and gap.  "
+             "BOUNDED: ORG placement shapes, the duplicate / undefined-symbol matrices (concrete program shapes).  Refuted cells are "
+             "known findings.", "DESIGN 4 C02, 12", TECHB),
     "C03": C("other", "(1) Function contracts over an ABSTRACT statement list of arbitrary length (fields as arrays, prefix-sum ghosts): "
              "Statement.fix_addresses for branches (both summing loops with invariants) and label,PCR, determine_pcr_relative_sizes "
              "(progress, size accounting, 8-bit-chosen => fits, via an inductively proved prefix-sum lemma): any number of statements "
@@ -42,22 +46,28 @@ CHECKS = {
              "the tree (known findings); the discharged ones are proved for all values.", "DESIGN 4 C04, 12"),
     "C05": C("other", "FCB / FDB with symbolic digits (lists up to 3 elements unbounded in value; longer lists and FCC strings with symbolic "
              "characters are bounded stand-ins), RMB size for symbolic n, directives that emit nothing.", "DESIGN 4 C05, 12", TECHB),
-    "C06": C("other", "Unbounded contracts on the reader's leaf functions over a buffer of ANY length and content (z3 arrays): skip_to_sequence "
-             "returns the least match or -1 (quantified loop invariant, early return inside the cut loop), read_word, read_coco_file_name.  "
-             "BOUNDED stand-in for the composed round trip: file count <= 3, data lengths enumerated (boundary lengths quick, every length "
-             "0..765 thorough), contents / addresses / name characters symbolic; reader on foreign streams with other leader and gap "
-             "lengths.  The writer side is proved unboundedly under C14.", "DESIGN 4 C06, 12", TECHB),
-    "C07": C("other", "Unbounded (writer side): geometry and length arithmetic for all granules / lengths; write_bytes_to_buffer, write_dir_entry, "
+    "C06": C("other", "Unbounded contracts on the whole reader over a buffer of ANY length and content (z3 arrays): skip_to_sequence (least "
+             "match or -1), read_word, read_coco_file_name, and -- for ANY well-formed stream described by ghost block positions (any "
+             "leader / gap lengths, any number of data blocks of any length 0..255, any number of files) -- read_blocks (while-loop "
+             "invariant + variant, inner loop), read_file and list_files (fold), each callee through its contract.  The writer side is "
+             "proved unboundedly under C14.  NOT machine-checked: that the writer's proved output format (z3 sequences) is an instance of "
+             "the reader's array-form well-formedness; BOUNDED stand-in for that composition: round trips with file count <= 3, "
+             "enumerated data lengths (every length 0..765 thorough), symbolic contents / addresses / names, foreign streams.",
+             "DESIGN 4 C06, 12.6", TECHB),
+    "C07": C("other", "Unbounded, writer side: geometry and length arithmetic for all granules / lengths; write_bytes_to_buffer, write_dir_entry, "
              "preamble / postamble read + write, write_to_fat (chains of any length), write_to_granules (any length, any chain of distinct "
-             "granules, any contents: stream in chain order, by recursion through its own contract) and the add_file composition.  "
-             "BOUNDED stand-in for read-back (the reader): enumerated data lengths x fill orders x file kinds x pre-existing files with "
-             "symbolic contents, tool reader and independent reader (specs/diskbasic).", "DESIGN 4 C07, 12", TECHB),
+             "granules, any contents: stream in chain order, by recursion through its own contract, both parameter shapes) and the add_file "
+             "composition.  Unbounded, reader side: read_data (any image, any FAT-linked chain, any length, every preamble shape: the data "
+             "in chain order, by recursion through its own contract) and calculate_file_length (while-loop invariant over a chain of any "
+             "length).  NOT under contract: the 72-entry directory loop of list_files that composes them.  BOUNDED stand-in for that "
+             "composition: enumerated data lengths x fill orders x file kinds x pre-existing files with symbolic contents, tool reader and "
+             "independent reader (specs/diskbasic).", "DESIGN 4 C07, 12", TECHB),
     "C08": C("other", "Unbounded, function by function with the image as a z3 array: seek_granule geometry, length identity, write_bytes_to_buffer "
              "(loop invariant), write_dir_entry layout, write_to_fat for chains of ANY length (injectivity ghost), write_to_granules for ANY "
-             "data length / chain / contents (stream in chain order + frame; the trailer-straddle case is excluded by precondition and is a "
-             "known finding), and DiskFile.add_file as the per-file inductive step (allocation while-loop invariant + variant, callee "
-             "pre-conditions at each call site, FAT chain, frame, directory slot).  BOUNDED: whole-image consistency with an independent "
-             "Disk BASIC checker on the enumerated family of C07.", "DESIGN 4 C08, 12", TECHB),
+             "data length / chain / contents (stream in chain order + frame, no condition on where the trailer falls), and DiskFile.add_file "
+             "as the per-file inductive step (allocation while-loop invariant + variant, callee pre-conditions at each call site, FAT chain, "
+             "frame, directory slot).  BOUNDED: whole-image consistency with an independent Disk BASIC checker on the enumerated family of "
+             "C07.", "DESIGN 4 C08, 12", TECHB),
     "C09": C("other", "BOUNDED stand-in for the history quantifier: open/add/save/re-open sessions through VirtualFile on the ghost filesystem "
              "(up to 4 additions, boundary lengths, symbolic contents for cassette and short disk files), CLI --append sequences, and kind "
              "recognition of tool-written images of every size class.  Per-step contracts come from C14 / C06 / C07 / C08.",
